@@ -157,7 +157,25 @@ REALISTIC = {
 DIFFICULTIES = ["Beginner", "Easy", "Medium", "Hard", "Challenge", "Edit", "basic", "light", "another",
                 "trick", "standard", "difficult", "ssr", "maniac", "heavy", "smaniac", "expert", "oni",
                 "HEAVY", "Oni", "beginner", "challenge"]
-STEPSTYPES = ["dance-single", "dance-double", "dance-solo", "pump-single", "dance-couple", "lights-cabinet"]
+STEPSTYPES = ["dance-single", "dance-double", "dance-solo", "pump-single", "dance-couple", "lights-cabinet",
+              # the rest of StepMania's vocabulary, current and legacy spellings
+              "dance-threepanel", "dance-routine", "pump-halfdouble", "pump-double", "pump-couple",
+              "pump-routine", "kb7-single", "ez2-single", "ez2-double", "ez2-real", "para-single",
+              "para-versus", "ds3ddx-single", "bm-single5", "bm-double7", "bm-single", "bm-double",
+              "maniax-single", "maniax-double", "techno-single4", "techno-double8", "pnm-five", "pnm-nine",
+              "kickbox-human", "para", "ez2-single-hard", "ez2-double-hard", "Dance-Single", "PARA"]
+# tags StepMania knows (or knew): legacy spellings, cache-only tags, other formats' tags
+LEGACY_TAGS = ["LASTBEATHINT", "LASTSECONDHINT", "FIRSTBEAT", "LASTBEAT", "FIRSTSECOND", "LASTSECOND",
+               "BGCHANGES2", "BGCHANGES3", "FGCHANGES", "ANIMATIONS", "FREEZES", "FREEZE", "STOP", "DELAYS",
+               "MUSICLENGTH", "MUSICBYTES", "SONGFILENAME", "STEPFILENAME", "HASMUSIC", "HASBANNER",
+               "DISCIMAGE", "DISC", "CDIMAGE", "JACKET", "PREVIEW", "PREVIEWVID", "LYRICSPATH", "LYRICS",
+               "MENUCOLOR", "BPM", "BPMS", "CHANGEBPM", "GAP", "FILE", "DISPLAYTITLE", "DISPLAYARTIST",
+               "CHARTNAME", "CHARTSTYLE", "STEPSTYPE", "NOTETYPE", "STEPS", "NOTES2", "NOTES3", "NOTEDATA",
+               "SAMPLESTART", "SAMPLELENGTH", "SAMPLE", "TITLETRANSLIT", "SUBTITLETRANSLIT", "ARTISTTRANSLIT",
+               "ORIGIN", "GENRE", "CREDIT", "AUTHOR", "DESCRIPTION", "DIFFICULTY", "METER", "RADARVALUES",
+               "OFFSET", "OFFSETS", "TIMESIGNATURES", "TIMESIGNATURE", "TICKCOUNTS", "TICKCOUNT", "COMBOS",
+               "WARPS", "NEGATIVEBPMS", "SPEEDS", "SCROLLS", "FAKES", "LABELS", "KEYSOUNDS", "ATTACKS",
+               "INSTRUMENTTRACK", "SELECTABLE", "DISPLAYBPM", "BACKGROUND", "BANNER", "CDTITLE", "MUSIC"]
 
 
 def gen_value_for_key(rng, key, profile, none_rate=0.06):
@@ -197,9 +215,11 @@ def gen_key(rng, fmt, profile, level="simfile"):
         k = rng.choice(["VERSION", "BGCHANGES2", "X", "", "NOTES2", "NOTES", "NOTES3", "NOTESKIN",
                         "ATTAC\u212aS", "\u212aEYSOUNDS", "ATTACKS2", "XDISPLAYBPM", "NOTEDATA2",
                         "VERS\u0130ON", "VERSIONS", "VERSION ", "D\u0130SPLAYBPM", "T\u0130TLE"])
-    elif r < 0.76 and not profile.startswith("enc:") and profile != "plain":
+    elif r < 0.77:
+        k = rng.choice(LEGACY_TAGS)
+    elif r < 0.79 and not profile.startswith("enc:") and profile != "plain":
         k = "".join(rng.choice(UPPER_STABLE + ["A", "Z", "_"]) for _ in range(rng.randint(1, 4)))
-    elif r < 0.78 and not profile.startswith("enc:"):
+    elif r < 0.81 and not profile.startswith("enc:"):
         k = "K" * rng.choice([300, 4090, 4097, 8200])          # long keys
     else:
         k = upper_key(gen_string(rng, profile, 5))
